@@ -5,6 +5,10 @@
      D <hex|->                           lbase58_decode                         -> ok <hex> | err <message>
      e <hex|->                           base58_spec_encode (positional spec)   -> ok <hex>
      d <hex|->                           base58_spec_decode                     -> ok <hex> | err invalid
+     b <msghex|->                        lblake2b_default: hasher.blake2b(m)    -> ok <hex>
+     K <digln> <msghex|->                lblake2b with key = "" (empty string)  -> ok <hex> | err <message>
+     S <outlen> <keyhex|-> <t0hex> <t1hex> <chunkhex|->...   blake2b_stream (harness/C20/stream.c)  -> ok <hex>
+     F <ihex> <outlen> <keyhex|-> <msghex|->                 blake2b_rfc_from i (spec)             -> ok <hex>
      H <len> <keyhex|-> <msghex|->       stringer_hash                          -> ok <hex> | err <message>
      h <msghex|->                        stringer_hash_default (len = 20)       -> ok <hex> | err <message>
    Byte strings travel as hex ("-" = empty). *)
@@ -35,6 +39,12 @@ let () =
         try
           (match op with
            | "B" -> show (lblake2b (bytes_of (a 2)) (z_of_dec (a 0)) (bytes_of (a 1)))
+           | "b" -> show (lblake2b_default (bytes_of (a 0)))
+           | "K" -> show (lblake2b (bytes_of (a 1)) (z_of_dec (a 0)) [])
+           | "S" -> (match blake2b_stream (z_of_dec (a 0)) (bytes_of (a 1)) (z_of_hex (a 2)) (z_of_hex (a 3))
+                             (List.map bytes_of (List.filteri (fun i _ -> i >= 4) args)) with
+                     | Some d -> "ok " ^ hex_of d | None -> "err UNDEFINED-BEHAVIOUR")
+           | "F" -> "ok " ^ hex_of (blake2b_rfc_from (z_of_hex (a 0)) (z_of_dec (a 1)) (bytes_of (a 2)) (bytes_of (a 3)))
            | "R" -> "ok " ^ hex_of (blake2b_rfc (z_of_dec (a 0)) (bytes_of (a 1)) (bytes_of (a 2)))
            | "E" -> show (lbase58_encode (bytes_of (a 0)))
            | "D" -> show (lbase58_decode (bytes_of (a 0)))
